@@ -75,9 +75,14 @@ def build_app(spec, validator=None, record=None, returns=None):
     for t in spec['types']:
         if t['k'] == 'complex':
             base = env[t['base']] if t.get('base') else ComplexModel
+            bases = (base,)
+            if t.get('mixin'):
+                # a plain Python mixin before or after the spyne base: class X(Mixin, ComplexModel)
+                mx = type('Mixin_' + str(t['name']), (object,), {'describe': lambda self: 'x'})
+                bases = (mx, base) if t['mixin'] == 'before' else (base, mx)
             d = {'__module__': 'c07app', '_type_info': [(k, build_type(T, env)) for k, T in t['fields']]}
             d['__namespace__'] = t.get('ns') or spec['tns']      # a class without one takes its module's name
-            env[t['name']] = ComplexModelMeta(str(t['name']), (base,), d)
+            env[t['name']] = ComplexModelMeta(str(t['name']), bases, d)
         elif t['k'] == 'enum':
             env[t['name']] = Enum(*t['values'], type_name=t['name'])
         elif t['k'] == 'fault':
@@ -128,6 +133,10 @@ def build_app(spec, validator=None, record=None, returns=None):
     P = Soap12 if spec.get('soap12') else Soap11
     app = Application(services, spec['tns'], name=spec['name'], in_protocol=P(validator=validator), out_protocol=P())
     app.transport = TRANSPORT
+    for pref, ns in spec.get('pins') or ():
+        # prefixes the deployment pins through the Interface.nsmap / prefmap tables
+        app.interface.nsmap[pref] = ns
+        app.interface.prefmap[ns] = pref
     b = Built()
     b.app, b.env, b.services = app, env, services
     return b
@@ -195,6 +204,17 @@ def extract_istate(app):
             return None
         return 'unbounded' if a.max_occurs in (D('inf'), float('inf')) else str(a.max_occurs)
 
+    def base_walk_hits_object(c, rev, depth=0):
+        """would a walk over __bases__ (front to back / back to front) reach `object` before a spyne model class?"""
+        from spyne.model import ModelBase
+        if c is object:
+            return True
+        if c in (ModelBase, SimpleModel, ComplexModelBase, Fault, EnumBase) or depth > 20:
+            return False
+        for bb in (reversed(c.__bases__) if rev else c.__bases__):
+            return base_walk_hits_object(bb, rev, depth + 1)
+        return False
+
     classes = []
     for c in order:
         if issubclass(c, EnumBase):
@@ -234,7 +254,9 @@ def extract_istate(app):
                         'ext': cid(ext) if ext is not None else None,
                         'fields': fields, 'subName': c.Attributes.sub_name or None,
                         'subNs': (None if not sub_ns else ('#default' if sub_ns is X.DEFAULT_NS else sub_ns)),
-                        'wsdlPart': c.Attributes.wsdl_part_name or None, 'enums': enums})
+                        'wsdlPart': c.Attributes.wsdl_part_name or None, 'enums': enums,
+                        'mixinFirst': bool(kind != 'builtin' and base_walk_hits_object(c, False)),
+                        'mixinLast': bool(kind != 'builtin' and base_walk_hits_object(c, True))})
     services = []
     for s in itf.services:
         ms = []
@@ -244,8 +266,9 @@ def extract_istate(app):
                        'outHeader': None if m.out_header is None else [cid(h) for h in m.out_header],
                        'faults': [cid(f) for f in (m.faults or ())], 'portType': m.port_type})
         services.append({'name': s.get_service_name(), 'portTypes': list(s.get_port_types()), 'methods': ms})
+    pinned = [[p, n] for p, n in itf.nsmap.items() if p not in X.NSMAP and p != 'tns']
     st = {'tns': itf.get_tns(), 'name': itf.get_name(),
-          'staticNs': [[p, n] for p, n in X.NSMAP.items()],
+          'staticNs': [[p, n] for p, n in X.NSMAP.items()], 'pins': pinned,
           'classes': classes,
           'deps': [[cid(k), [cid(x) for x in v]] for k, v in itf.deps.items()],
           'imports': [[k, list(v)] for k, v in itf.imports.items()],
@@ -589,7 +612,13 @@ def gen_spec(rng, idx):
         base = rng.choice(cnames) if cnames and rng.random() < 0.25 else None
         # the first member is an element: zeep decodes an attribute-only (childless) reply element as None
         fields = [['m%d_%d' % (i, j), gen_T(rng, cnames, enames, 0, j > 0)] for j in range(rng.randrange(1, 5))]
-        types.append({'k': 'complex', 'name': n, 'ns': rng.choice(nss + [None]) if nss else None, 'base': base, 'fields': fields})
+        ct = {'k': 'complex', 'name': n, 'ns': rng.choice(nss + [None]) if nss else None, 'base': base, 'fields': fields}
+        r = rng.random()
+        if r < 0.12:
+            ct['mixin'] = 'before'
+        elif r < 0.2:
+            ct['mixin'] = 'after'
+        types.append(ct)
         cnames.append(n)
     for i in range(rng.randrange(0, 4)):
         n = 'H%d' % i
@@ -651,8 +680,13 @@ def gen_spec(rng, idx):
                 m['port_type'] = rng.choice(s['port_types'])
             s['methods'].append(m)
         services.append(s)
-    return {'id': 'rnd%d' % idx, 'tns': rng.choice(['tns.main', 'urn:spyne:c07', 'http://example.com/app/']),
+    spec = {'id': 'rnd%d' % idx, 'tns': rng.choice(['tns.main', 'urn:spyne:c07', 'http://example.com/app/']),
             'name': rng.choice(['App', 'Gen%d' % idx]), 'types': types, 'services': services}
+    if nss and rng.random() < 0.25:
+        # the deployment pins prefixes, some of them inside the generator's own s0, s1, ... sequence
+        prefs = rng.sample(['s0', 's1', 's2', 's3', 's5', 'p', 'lib', 's10'], min(len(nss), rng.randrange(1, 4)))
+        spec['pins'] = [[p, n] for p, n in zip(prefs, rng.sample(nss, len(prefs)))]
+    return spec
 
 
 def boundary_specs():
@@ -691,6 +725,21 @@ def boundary_specs():
     out.append({'id': 'b-shared-3svc', 'tns': 'tns.main', 'name': 'App', 'types': shared, 'services': [
         {'name': 'S%d' % k, 'in_header': ['H'], 'out_header': ['H'], 'methods': [
             {'fn': 'f%d' % k, 'params': [['a', {'c': 'Item'}]], 'returns': {'c': 'Item'}, 'throws': ['NotFound']}]} for k in range(3)]})
+    chain = [{'k': 'complex', 'name': 'Address', 'ns': 'urn:demo:a', 'fields': [['street', U], ['no', I]]},
+             {'k': 'complex', 'name': 'Customer', 'ns': 'urn:demo:b', 'fields': [['name', U], ['address', {'c': 'Address'}]]},
+             {'k': 'complex', 'name': 'Item', 'ns': 'urn:demo:c', 'fields': [['sku', U], ['count', I]]},
+             {'k': 'complex', 'name': 'Order', 'ns': 'urn:demo:d', 'fields': [['customer', {'c': 'Customer'}], ['item', {'c': 'Item'}]]}]
+    for tag, pins in (('s0s1', [['s0', 'urn:demo:b'], ['s1', 'urn:demo:c']]), ('s0s1s2', [['s0', 'urn:demo:d'], ['s1', 'urn:demo:a'], ['s2', 'urn:demo:b']]),
+                      ('s1', [['s1', 'urn:demo:a']]), ('named', [['lib', 'urn:demo:c'], ['s3', 'urn:demo:a']])):
+        out.append({'id': 'b-pinned-' + tag, 'tns': 'urn:demo:tns', 'name': 'Orders', 'types': chain, 'pins': pins, 'services': [
+            {'name': 'S', 'methods': [{'fn': 'place', 'params': [['order', {'c': 'Order'}]], 'returns': {'c': 'Order'}}]}]})
+    for pos in ('before', 'after'):
+        out.append({'id': 'b-mixin-' + pos, 'tns': 'tns.main', 'name': 'App', 'types': [
+            {'k': 'complex', 'name': 'Plain', 'ns': None, 'fields': [['x', U]]},
+            {'k': 'complex', 'name': 'Tagged', 'ns': 'ns.a', 'mixin': pos, 'fields': [['y', U], ['p', {'c': 'Plain'}]]},
+            {'k': 'complex', 'name': 'Sub', 'ns': 'ns.a', 'base': 'Tagged', 'mixin': pos, 'fields': [['z', I]]},
+            {'k': 'complex', 'name': 'Box', 'ns': None, 'fields': [['t', {'c': 'Tagged'}], ['l', {'arr': {'c': 'Sub'}}]]}],
+            'services': [{'name': 'S', 'methods': [{'fn': 'f', 'params': [['b', {'c': 'Box'}]], 'returns': {'c': 'Tagged'}}]}]})
     out.append({'id': 'b-porttypes-1', 'tns': 'tns.main', 'name': 'App', 'types': [], 'services': [
         {'name': 'S', 'port_types': ['P1'], 'methods': [{'fn': 'f', 'params': [['a', U]], 'returns': U, 'port_type': 'P1'}]}]})
     out.append({'id': 'b-porttypes-2', 'tns': 'tns.main', 'name': 'App', 'types': [], 'services': [
@@ -868,7 +917,9 @@ def zeep_roundtrip(ctx, spec, wsdl_bytes, rng):
     from spyne.server.wsgi import WsgiApplication
     record, returns = [], {}
     try:
-        b = build_app(spec, validator='lxml', record=record, returns=returns)
+        # pinned prefixes have to be in place before the first prefix is handed out; the lxml validator renders the
+        # schemas inside Application.__init__, so applications with pinned prefixes run without it
+        b = build_app(spec, validator=None if spec.get('pins') else 'lxml', record=record, returns=returns)
         wsgi = WsgiApplication(b.app)
         wsgi.doc.wsdl11.build_interface_document(URL)
     except Exception as e:
@@ -1079,6 +1130,13 @@ def measure_facts():
     names = [m['name'] for m in doc['messages']]
     f['messageDedup'] = 'perDocument' if len(names) == len(set(names)) else \
         ('perService' if names.count('NotFound') == 3 and names.count('H') == 3 else 'other')
+    # --- class -> handler tables: which base of `class X(Mixin, ComplexModel)` decides
+    ok = {}
+    for pos in ('before', 'after'):
+        doc, _ = parse_wsdl(build_wsdl(build_app(_spec('b-mixin-' + pos)).app))
+        tnames = [t['name'] for sc in doc['schemas'] for t in sc['types']]
+        ok[pos] = 'Tagged' in tnames and 'Sub' in tnames
+    f['handlerLookup'] = {(True, True): 'spyneBase', (True, False): 'lastBase', (False, True): 'firstBase'}.get((ok['before'], ok['after']), 'other')
     f['staticPrefixesClean'] = not any(re.match(r'^s\d+$', p) or p == 'tns' for p in X.NSMAP)
     return f
 
@@ -1091,7 +1149,7 @@ def b_app_deps_factory():
 
 
 GOOD = {'importsIter': 'sorted', 'tierTies': 'insertion', 'headerMsgNs': 'tns', 'opPortType': 'own', 'faultNs': 'forcedTns',
-        'messageDedup': 'perDocument', 'staticPrefixesClean': True}
+        'messageDedup': 'perDocument', 'handlerLookup': 'spyneBase', 'staticPrefixesClean': True}
 WITNESS = {
     'importsIter': ('b-4ns', 'determinism', 'the order of <xs:import> follows the iteration order of a set of namespace strings: '
                     'the WSDL bytes change with PYTHONHASHSEED'),
@@ -1105,6 +1163,9 @@ WITNESS = {
                 'namespace\'s prefix while the wsdl:message is defined in the target namespace'),
     'messageDedup': ('b-shared-3svc', 'closed', 'the set of emitted message names is reset per service: services that share a '
                      'header or fault class produce duplicate wsdl:message definitions'),
+    'handlerLookup': ('b-mixin-after', 'closed', 'a class that lists a plain mixin next to its spyne base (after it when the bases are '
+                      'tried from the last one, before it when from the first) resolves to the catch-all schema handler: no '
+                      'complexType is written for it and references to its type dangle'),
     'staticPrefixesClean': ('b-min', 'closed', 'a static prefix collides with generated s<k> prefixes'),
 }
 
@@ -1122,10 +1183,11 @@ def facts07 : Facts07 where
   opPortType := .%s
   faultNs := .%s
   messageDedup := .%s
+  handlerLookup := .%s
   staticPrefixesClean := %s
 
 end SpyneModel.Generated
-''' % (f['importsIter'], f['tierTies'], f['headerMsgNs'], f['opPortType'], f['faultNs'], f['messageDedup'], 'true' if f['staticPrefixesClean'] else 'false')
+''' % (f['importsIter'], f['tierTies'], f['headerMsgNs'], f['opPortType'], f['faultNs'], f['messageDedup'], f['handlerLookup'], 'true' if f['staticPrefixesClean'] else 'false')
 
 
 # ====================================================================================== fresh processes
@@ -1238,6 +1300,17 @@ def analyse(ctx, spec, rng, with_zeep=True):
     return res
 
 
+def input_class(spec, text):
+    """suffix for finding ids: the failure concerns a class that lists a plain mixin next to its spyne base"""
+    for pos in ('after', 'before'):
+        names = [t['name'] for t in spec['types'] if t.get('mixin') == pos]
+        for _ in spec['types']:        # classes derived from such a class inherit the problem
+            names += [t['name'] for t in spec['types'] if t.get('base') in names and t['name'] not in names]
+        if any(re.search(r'(^|[^A-Za-z0-9_])%s($|[^A-Za-z0-9_])' % re.escape(n), text or '') for n in names):
+            return ':mixin-%s-base' % pos
+    return ''
+
+
 def report_t3(ctx, r):
     spec = r['spec']
     if 'build_crash' in r:
@@ -1250,7 +1323,7 @@ def report_t3(ctx, r):
         ctx.finding('wellformed:child-order', 'definitions/schema children are not in schema order', {'check': 'wellformed', 'spec': spec})
     for kind, val, why in r['unresolved']:
         ctx.hit('t3-fail:closed:' + kind)
-        ctx.finding('closed:' + kind, 'QName reference %s="%s" does not resolve: %s' % (kind, val, why),
+        ctx.finding('closed:' + kind + input_class(spec, val + ' ' + why), 'QName reference %s="%s" does not resolve: %s' % (kind, val, why),
                     {'check': 'closed', 'spec': spec, 'reference': val, 'reason': why})
     for kind, name, k in r['duplicates']:
         ctx.hit('t3-fail:closed:duplicate-definition:' + kind)
@@ -1265,7 +1338,7 @@ def report_t3(ctx, r):
         ctx.finding('ops:' + why, 'operation %r: %s (%r)' % (op, why, det), {'check': 'ops', 'spec': spec, 'operation': op, 'detail': det})
     for stage, op, det in r['zeep']:
         ctx.hit('t3-fail:zeep:' + stage)
-        ctx.finding('zeep:' + stage, 'zeep client built from the WSDL alone, operation %r: %s' % (op, det),
+        ctx.finding('zeep:' + stage + input_class(spec, str(det)), 'zeep client built from the WSDL alone, operation %r: %s' % (op, det),
                     {'check': 'zeep', 'spec': spec, 'operation': op, 'detail': det})
 
 
@@ -1300,6 +1373,8 @@ def run(ctx):
     for k, good in GOOD.items():
         if f[k] != good:
             sid, check, what = WITNESS[k]
+            if k == 'handlerLookup' and f[k] == 'firstBase':
+                sid = 'b-mixin-before'
             ctx.hit('fact-bad:' + k)
             ctx.finding('switch:%s=%s' % (k, f[k]), what, {'check': check, 'spec': _spec(sid), 'fact': k, 'measured': f[k], 'good': good})
     # ---- proof
@@ -1361,7 +1436,9 @@ def run(ctx):
         if 'ok' not in mod:
             ctx.disagree('gen', {'spec': r['spec']}, 'document built', mod)
             continue
-        if not mod.get('wf'):
+        bad_pos = {'lastBase': 'after', 'firstBase': 'before'}.get(ctx.facts.get('handlerLookup'))
+        explained = bad_pos and input_class(r['spec'], ' '.join(t['name'] for t in r['spec']['types'])) == ':mixin-%s-base' % bad_pos
+        if not mod.get('wf') and not explained:      # (a contract failure caused by the measured handler lookup is reported by T3)
             ctx.disagree('wf', {'spec': r['spec']}, 'interface state of a real application',
                          {'wf': False, 'classes': mod.get('wfBadCls'), 'methods': mod.get('wfBadMeth')})
         if mod['tiers'] != r['tiers']:
